@@ -2,6 +2,9 @@ package c01_reconcile
 
 import (
 	"os"
+	"runtime"
+	"runtime/debug"
+	"sync"
 	"testing"
 
 	"pgregory.net/rapid"
@@ -11,6 +14,11 @@ import (
 	"verif/kit/ev"
 	"verif/kit/tree"
 )
+
+func TestMain(m *testing.M) {
+	debug.SetGCPercent(800)
+	os.Exit(m.Run())
+}
 
 func prop() string {
 	if p := os.Getenv("VERIF_PROP"); p != "" {
@@ -57,20 +65,18 @@ func judge(p string, in *Input) (res Result, evals uint64, nts uint64) {
 		}
 		var sizes []int
 		total := 1
-		for _, list := range [][]*core.Change{plan.Alpha, plan.Beta} {
-			for _, c := range list {
-				k := len(Outcomes(c))
-				sizes = append(sizes, k)
-				if total < 1<<20 {
-					total *= k
-				}
+		pre := PlanOutcomes(plan)
+		for _, o := range pre {
+			sizes = append(sizes, len(o))
+			if total < 1<<20 {
+				total *= len(o)
 			}
 		}
 		vec := make([]int, n)
 		if total <= productCap() {
 			// Full product.
 			for {
-				r := JudgeC05(in, plan, vec)
+				r := JudgeC05With(in, plan, vec, pre)
 				evals++
 				if r.NonTrivial {
 					nts++
@@ -102,7 +108,7 @@ func judge(p string, in *Input) (res Result, evals uint64, nts uint64) {
 				h = h*6364136223846793005 + 1442695040888963407
 				vec[i] = int((h >> 33) % uint64(sizes[i]))
 			}
-			r := JudgeC05(in, plan, vec)
+			r := JudgeC05With(in, plan, vec, pre)
 			evals++
 			if r.NonTrivial {
 				nts++
@@ -140,17 +146,24 @@ func pad(v []int, n int) []int {
 
 // shapes returns the alpha/beta tree list and the ancestor list of the
 // bounded shape of the tier.
-func shapes(deep bool) (ab, anc []*core.Entry, bound string) {
+func shapes(level int) (ab, anc []*core.Entry, bound string) {
 	leaves := []*core.Entry{tree.F(1, false), tree.F(1, true), tree.F(2, false), tree.L("t1"), tree.U(), tree.P("p1")}
-	if !deep {
-		s := &tree.Shape{Names: []string{"a", "b"}, Leaves: leaves, Sub: &tree.Shape{}}
-		ab = s.Enumerate(true)
-		return ab, tree.SyncOnly(ab), "root: nil | leaf | directory over names {a,b}; leaf alphabet {F(d1), F(d1,x), F(d2), L(t1), U, P}; child: absent | leaf | empty directory"
+	var s *tree.Shape
+	switch level {
+	case 0:
+		s = &tree.Shape{Names: []string{"a", "b"}, Leaves: leaves, Sub: &tree.Shape{}}
+		bound = "root: nil | leaf | directory over names {a,b}; leaf alphabet {F(d1), F(d1,x), F(d2), L(t1), U, P}; child: absent | leaf | empty directory"
+	case 1:
+		sub := &tree.Shape{Names: []string{"a"}, Leaves: []*core.Entry{tree.F(1, false), tree.F(2, false), tree.U()}, Sub: &tree.Shape{}}
+		s = &tree.Shape{Names: []string{"a", "b"}, Leaves: leaves, Sub: sub}
+		bound = "root: nil | leaf | directory over {a,b}; leaves {F(d1), F(d1,x), F(d2), L(t1), U, P}; child directories over name {a} with leaves {F(d1), F(d2), U, empty directory}"
+	default:
+		sub := &tree.Shape{Names: []string{"a", "b"}, Leaves: []*core.Entry{tree.F(1, false), tree.U()}, Sub: &tree.Shape{}}
+		s = &tree.Shape{Names: []string{"a", "b"}, Leaves: leaves, Sub: sub}
+		bound = "root: nil | leaf | directory over {a,b}; leaves {F(d1), F(d1,x), F(d2), L(t1), U, P}; child directories over names {a,b} with leaves {F(d1), U, empty directory}"
 	}
-	sub := &tree.Shape{Names: []string{"a"}, Leaves: []*core.Entry{tree.F(1, false), tree.F(2, false), tree.U()}, Sub: &tree.Shape{}}
-	s := &tree.Shape{Names: []string{"a", "b"}, Leaves: leaves, Sub: sub}
 	ab = s.Enumerate(true)
-	return ab, tree.SyncOnly(ab), "depth-1 shape plus child directories over name {a} with leaves {F(d1), F(d2), U, empty directory}"
+	return ab, tree.SyncOnly(ab), bound
 }
 
 func dockerShapes() (ab, anc []*core.Entry, bound string) {
@@ -166,41 +179,96 @@ func TestExhaustive(t *testing.T) {
 	}
 	p := prop()
 	rec := ev.New(t, p, "exhaustive-triples", "every (ancestor, alpha, beta) triple of the bounded shape x 4 modes; "+rules[p])
-	deep := ev.Thorough()
-	ab, anc, bound := shapes(deep)
+	level := ev.Pick(1, 2)
+	if p == "C05" {
+		level = 1
+	}
+	ab, anc, bound := shapes(level)
 	rec.SetExhaustive(bound)
 	run := func(ab, anc []*core.Entry, docker bool, part *ev.Recorder) {
 		shard, shards := ev.Shard(), ev.Shards()
-		for ai, a := range anc {
+		var mu sync.Mutex
+		var failure *Input
+		var failureMsg string
+		work := make(chan int)
+		var wg sync.WaitGroup
+		for w := 0; w < runtime.GOMAXPROCS(0); w++ {
+			wg.Add(1)
+			go func() {
+				defer wg.Done()
+				for ai := range work {
+					a := anc[ai]
+					var evals, nts uint64
+					classes := map[string]uint64{}
+					var samples []map[string]any
+					stop := false
+					for _, x := range ab {
+						for _, y := range ab {
+							for _, m := range modesFor(p) {
+								in := &Input{Anc: a, Alpha: x, Beta: y, Mode: m, Docker: docker}
+								res, e, n := judge(p, in)
+								evals += e
+								if res.Violation != "" {
+									mu.Lock()
+									if failure == nil {
+										failure, failureMsg = in, res.Violation
+									}
+									mu.Unlock()
+									stop = true
+								}
+								if p == "C05" {
+									nts += n
+								} else if res.NonTrivial {
+									nts++
+								}
+								if res.NonTrivial {
+									classes["nontrivial/"+modeNames[m]]++
+									if len(samples) < 1 && len(x.GetContents()) > 0 && len(a.GetContents()) > 0 && (ai+len(y.GetContents()))%3 == 0 {
+										samples = append(samples, in.Sample())
+									}
+								}
+								for _, c := range res.Classes {
+									classes[c]++
+								}
+								if stop {
+									break
+								}
+							}
+							if stop {
+								break
+							}
+						}
+						if stop {
+							break
+						}
+					}
+					part.EvalN(evals)
+					part.NonTrivialDistinct(nts)
+					for c, n := range classes {
+						part.ClassN(c, n)
+					}
+					for _, sm := range samples {
+						part.Sample(sm)
+					}
+				}
+			}()
+		}
+		for ai := range anc {
 			if ai%shards != shard {
 				continue
 			}
-			for _, x := range ab {
-				for _, y := range ab {
-					for _, m := range modesFor(p) {
-						in := &Input{Anc: a, Alpha: x, Beta: y, Mode: m, Docker: docker}
-						res, evals, nts := judge(p, in)
-						part.EvalN(evals)
-						if res.Violation != "" {
-							ev.FailTB(t, part, in.Case(), "%s", res.Violation)
-						}
-						if p == "C05" {
-							part.NonTrivialDistinct(nts)
-						} else if res.NonTrivial {
-							part.NonTrivialDistinct(1)
-						}
-						if res.NonTrivial {
-							part.Class("nontrivial/" + modeNames[m])
-							if part.WantSample() && len(x.GetContents()) > 0 && len(a.GetContents()) > 0 && (ai+len(y.GetContents()))%3 == 0 {
-								part.Sample(in.Sample())
-							}
-						}
-						for _, c := range res.Classes {
-							part.Class(c)
-						}
-					}
-				}
+			mu.Lock()
+			failed := failure != nil
+			mu.Unlock()
+			if failed {
+				break
 			}
+			work <- ai
+		}
+		close(work)
+		wg.Wait()
+		if failure != nil {
+			ev.FailTB(t, part, failure.Case(), "%s", failureMsg)
 		}
 	}
 	run(ab, anc, false, rec)
